@@ -185,6 +185,11 @@ func c04Packet(c *fw.Ctx, i int) {
 	for _, l := range c04Lengths(size, hdr, int(p.PadSize)) {
 		for mode := 0; mode < 4; mode++ {
 			dst := make([]byte, l)
+			spare := func() bool { return false }
+			if mode == 2 {
+				// a window into a larger buffer: capacity beyond len is not part of the destination
+				dst, spare = fw.Roomy(dst, size+16)
+			}
 			fillDst(c.R, dst, mode)
 			before := append([]byte{}, dst...)
 			var n int
@@ -204,6 +209,10 @@ func c04Packet(c *fw.Ctx, i int) {
 			}
 			if gen.Nontrivial(p) {
 				c.Shapef("%s|dst%s|fill%d", gen.ShapeKey(p), dstClass(l, size), mode)
+			}
+			if spare() {
+				c.Fail("C04/packet/wrote-beyond-len-into-spare-capacity/dst-"+dstClass(l, size), fmt.Sprintf("MarshalTo wrote beyond len(dst)=%d into the destination slice's spare capacity (n=%d, err=%v)", l, n, e), wit())
+				return
 			}
 			if !c04Judge(c, "packet", p, want, size, hdr, dst, before, n, e, wit) {
 				return
@@ -242,6 +251,10 @@ func c04Header(c *fw.Ctx, i int) {
 	for _, l := range c04Lengths(size, size, 0) {
 		for mode := 0; mode < 4; mode++ {
 			dst := make([]byte, l)
+			spare := func() bool { return false }
+			if mode == 2 {
+				dst, spare = fw.Roomy(dst, size+16)
+			}
 			fillDst(c.R, dst, mode)
 			before := append([]byte{}, dst...)
 			var n int
@@ -261,6 +274,10 @@ func c04Header(c *fw.Ctx, i int) {
 			}
 			if gen.Nontrivial(p) {
 				c.Shapef("%s|dst%s|fill%d", gen.ShapeKey(p), dstClass(l, size), mode)
+			}
+			if spare() {
+				c.Fail("C04/header/wrote-beyond-len-into-spare-capacity/dst-"+dstClass(l, size), fmt.Sprintf("Header.MarshalTo wrote beyond len(dst)=%d into the destination slice's spare capacity (n=%d, err=%v)", l, n, e), wit())
+				return
 			}
 			if !c04Judge(c, "header", p, want, size, size, dst, before, n, e, wit) {
 				return
